@@ -140,7 +140,7 @@ func tTag(c context, s []byte) (context, int) {
 		if specialElements[c.element.name] {
 			ret.state = stateSpecialElementBody
 		}
-		if c.element.name != "" && allVoid(c.element) {
+		if c.element.name != "" && allVoid(c.element) && !c.element.split {
 			// Special case: end of start tag of a void element.
 			// Discard unnecessary state, since this element have no content.
 			ret.element = element{}
